@@ -20,7 +20,8 @@ func NewBufferInput(parent app.Input, buffer *Buffer) app.Input {
 
 // ReadWord return next word from input stream
 func (input *BufferInput) ReadWord() (s string, err error) {
-	if s, err = input.parent.ReadWord(); err == nil {
+	// the last word of a stream comes together with io.EOF
+	if s, err = input.parent.ReadWord(); s != "" {
 		input.buffer.WriteString(s)
 	}
 	return s, err
@@ -28,7 +29,7 @@ func (input *BufferInput) ReadWord() (s string, err error) {
 
 // ReadLine return next line from input stream
 func (input *BufferInput) ReadLine() (s string, err error) {
-	if s, err = input.parent.ReadWord(); err == nil {
+	if s, err = input.parent.ReadLine(); s != "" {
 		input.buffer.WriteString(s)
 	}
 	return s, err
